@@ -4,6 +4,8 @@
 -/
 import TinyHttpModel.RespCase
 import TinyHttpModel.ConnCase
+import TinyHttpModel.QueueCase
+import TinyHttpModel.PoolCase
 
 open TH TH.Proto
 
@@ -17,6 +19,8 @@ def handle (line : String) : Option String :=
     | (kind, _) :: rest =>
       if kind == "resp" then some (RespCase.run rest)
       else if kind == "conn" then some (ConnCase.run rest)
+      else if kind == "queue" then some (QueueCase.run rest)
+      else if kind == "pool" then some (PoolCase.run rest)
       else some ("res id=" ++ get rest "id" ++ " agree=0 diff=unknown-kind:" ++ kind)
     | [] => none
 
